@@ -395,7 +395,7 @@ class Kernel2D(AbstractArray2D):
         """
         return cls.no_mask(
             values=cls.flip_hdu_for_ds9(primary_hdu.data.astype("float")),
-            pixel_scales=primary_hdu.header["PIXSCALE"],
+            pixel_scales=cls.pixel_scales_via_header_from(primary_hdu.header),
             origin=origin,
         )
 
